@@ -181,21 +181,23 @@ Lemma create_err s k key parent l s' e :
   exists E, shrink s s' E /\
     (forall id, In (DId id) (dirs s) -> id <= seq s -> In (DId id) (dirs s')) /\
     (forall x, In x (mounts s) -> fst x <= seq s -> In x (mounts s')) /\
-    selfd (fun d => exists id, d = DId id /\ seq s < id) E.
+    selfd (fun d => exists id, d = DId id /\ seq s < id) E /\ ctrace (fun _ => True) E.
 Proof.
   unfold create_snapshot. destruct (closed s) eqn:C.
-  { intros H; inversion H; subst. exists []. split; [apply shrink_refl|]. split; [auto|]. split; [auto|apply selfd_nil]. }
+  { intros H; inversion H; subst. exists []. split; [apply shrink_refl|]. split; [auto|]. split; [auto|].
+    split; [apply selfd_nil|constructor]. }
   destruct (tmp_cleanup s) as [Sh1 [D1 M1]].
   set (td := DTemp (tmpc s)) in *.
   set (s1 := set_tmpc (set_dirs s (td :: dirs s)) (S (tmpc s))) in *.
   assert (simple : exists E, shrink s (cleanup_dir [] s1 td) E /\
     (forall id, In (DId id) (dirs s) -> id <= seq s -> In (DId id) (dirs (cleanup_dir [] s1 td))) /\
     (forall x, In x (mounts s) -> fst x <= seq s -> In x (mounts (cleanup_dir [] s1 td))) /\
-    selfd (fun d => exists id, d = DId id /\ seq s < id) E).
-  { eexists. split; [exact Sh1|]. split; [|split].
+    selfd (fun d => exists id, d = DId id /\ seq s < id) E /\ ctrace (fun _ => True) E).
+  { eexists. split; [exact Sh1|]. split; [|split; [|split]].
     - intros id H _. apply D1. split; auto. unfold td. discriminate.
     - intros x H _. rewrite M1. exact H.
-    - apply selfd_pair. discriminate. }
+    - apply selfd_pair. discriminate.
+    - repeat constructor. }
   destruct (meta_create s1 k key parent) as [e0|sn] eqn:MC.
   { intros H; inversion H; subst. exact simple. }
   destruct (negb match sn_parents sn with [] => true | p :: _ => has_dir s1 (DId p) end).
@@ -205,7 +207,7 @@ Proof.
   apply meta_create_ok in MC. simpl in MC. destruct MC as [_ [ID _]].
   set (s2 := cleanup_dir [] s1 td) in *.
   destruct (cleanup_dir_spec [] s2 (DId (sn_id sn))) as [lv [ok [Sh2 [D2 [L2 K2]]]]].
-  eexists. split; [eapply shrink_trans; eauto|]. split; [|split].
+  eexists. split; [eapply shrink_trans; eauto|]. split; [|split; [|split]].
   - intros id H Le. rewrite D2. apply rm_dirent_in. split.
     + apply D1. split; auto. unfold td. discriminate.
     + rewrite ID. intros Q. inversion Q. lia.
@@ -215,6 +217,7 @@ Proof.
   - apply selfd_app.
     + apply selfd_pair. discriminate.
     + apply selfd_pair. intros _. exists (sn_id sn). split; auto. rewrite ID. lia.
+  - repeat constructor.
 Qed.
 
 (* ---------- preservation: createSnapshot success ---------- *)
